@@ -120,7 +120,7 @@ fn malformed_fragment() -> impl Strategy<Value = Vec<u8>> {
 }
 
 fn op_strategy() -> impl Strategy<Value = Op> {
-    let chars = vec!['a', 'b', ' ', '-', '"', '\\', 'h', 'e', 'l', 'p', 'g', 't', 'é', 'Ж', '₿', '𝄞', '\u{80}', '\u{7ff}', '\u{800}', '\u{ffff}', '\u{10000}', '\u{10ffff}'];
+    let chars = vec!['a', 'b', ' ', '-', '"', '\\', 'h', 'e', 'l', 'p', 'g', 't', 'é', 'Ж', '₿', '𝄞', 'à', 'х', 'Р', '\u{80}', '\u{7ff}', '\u{800}', '\u{ffff}', '\u{10000}', '\u{10ffff}'];
     let texts = vec!["get-led ", "help ", "set ", "--", " -", "эхо ", "-v", "exit", "net up ", "с", "ст", "стар"];
     prop_oneof![
         30 => any::<u16>().prop_map(move |s| Op::Char(super::common::pick(&chars, s))),
